@@ -89,7 +89,8 @@ func loopTagCompiler(node render.BlockNode) (func(io.Writer, render.Context) err
 
 		iter := makeIterator(val)
 		if iter == nil {
-			return nil
+			// nil, undefined and non-iterable values select nothing, so that the else branch renders
+			iter = sliceWrapper(reflect.ValueOf([]any{}))
 		}
 
 		iter, err = applyLoopModifiers(stmt.Loop, ctx, iter)
